@@ -42,7 +42,7 @@ PtrConsts == {4096, 4100}
 Imms == {0, 1, -1, 127, 128, 4660, 305419896, -559038737}
 SmallImms == {1, 4, 8, 127}
 AluOps == {"add", "sub", "xor", "and", "or", "cmp", "test", "adc"}
-MemForms == {"mov_mr", "mov_rm", "mov_mi", "alu_mr", "alu_rm", "alu_mi", "push_m", "pop_m", "un_m", "movx", "xchg", "lea", "setcc_m"}
+MemForms == {"mov_mr", "mov_rm", "mov_mi", "alu_mr", "alu_rm", "alu_mi", "push_m", "pop_m", "un_m", "movx", "xchg", "lea", "setcc_m", "ptr_load"}
 RegForms == {"mov_ri", "mov_rr", "alu_rr", "alu_ri", "push_r", "push_i", "pop_r", "frame", "flag", "str", "rep_setup", "rep", "setcc_r", "cmov_rr", "const_setcc"}
 Hi8 == [eax |-> "ah", ebx |-> "bh", ecx |-> "ch", edx |-> "dh"]
 CondNames == {"z", "l", "a", "b", "ns"}
@@ -84,6 +84,9 @@ SharedCount ==
             ptr |-> (StrPtr(mn) \ {"ecx"}) \ cp.kill, dfk |-> dfk, ecxn |-> -1]
              : rk \in RepKinds(mn), n \in 1..4, cp \in CountCopies}
           : mn \in {s \in StrOps : dfk /\ StrNeeds(s) \subseteq ptr /\ s \notin {"cmpsb", "cmpsd", "scasb", "scasd"}}}
+\* no instruction so far has written memory (the content of every location is still its initial content)
+SafeMn == {"mov", "lea", "cld", "std", "movzx", "movsx", "add", "sub", "xor", "and", "or", "cmp", "test", "adc"}
+NoStoreYet == \A j \in 1..Len(prog) : prog[j].mn \in SafeMn /\ prog[j].a.k # "m"
 Complete(f, m) ==
    CASE f = "mov_mr" -> {Eff(Ins("mov", m, SubReg(r, m.w)), ptr, dfk, ecxn) : r \in Data32}
      [] f = "mov_rm" -> {Eff(Ins("mov", SubReg(r, m.w), m), Kill(r), dfk, EcxAfter(r)) : r \in Data32}
@@ -97,6 +100,12 @@ Complete(f, m) ==
      [] f = "un_m" -> {Eff(Ins(o, m, None), ptr, dfk, ecxn) : o \in {"inc", "dec", "neg", "not"}}
      [] f = "movx" -> IF m.w = 32 THEN {} ELSE {Eff(Ins(o, R(r, 32), m), Kill(r), dfk, EcxAfter(r)) : o \in {"movzx", "movsx"}, r \in Data32}
      [] f = "xchg" -> IF m.w # 32 THEN {} ELSE {Eff(Ins("xchg", R(r, 32), m), Kill(r), dfk, EcxAfter(r)) : r \in Data32}
+     \* a pointer loaded from initial memory (a symbol of the valuation) becomes a base register; in half of the cases the
+     \* location it was loaded from is overwritten right away, so that its initial and its current content differ
+     [] f = "ptr_load" -> IF ~NoStoreYet \/ m.w # 32 THEN {}
+                          ELSE {Eff(Ins("mov", R(r, 32), m), ptr \cup {r}, dfk, ecxn) : r \in {"esi", "edi", "ebx"} \ {m.n}}
+                               \cup {Eff2(Ins("mov", R(r, 32), m), Ins("mov", m, I(v)), ptr \cup {r}, dfk, ecxn)
+                                        : r \in {"esi", "edi", "ebx"} \ {m.n}, v \in {7, 4096}}
      [] f = "setcc_m" -> IF m.w # 8 THEN {} ELSE {Eff(Ins("set" \o c, m, None), ptr, dfk, ecxn) : c \in CondNames}
      \* a condition written into a low / high byte or moved under a condition: the rest of the register keeps its (often constant) value
      [] f = "setcc_r" -> {Eff(Ins("set" \o c, R(IF hi THEN Hi8[r] ELSE Sub8[r], 8), None), Kill(r), dfk, EcxAfter(r)) : c \in CondNames, r \in Data32, hi \in BOOLEAN}
